@@ -483,3 +483,17 @@ Proof.
     + destruct k; cbn [repair_loop]; rewrite N.eqb_refl; reflexivity.
     + repeat split; try reflexivity. intros; lia.
 Qed.
+
+(* data below the durable watermark survives every cut, and the crashed file is at least that long *)
+Lemma crash_file_covers f c p o :
+  valid_cut f c p -> (fdur f <= flen f)%nat -> o <= N.of_nat (fdur f) ->
+  o <= fsize (crash_file f c p) /\
+  firstn (N.to_nat o) (fbytes (crash_file f c p)) = firstn (N.to_nat o) (fbytes f).
+Proof.
+  intros [H1 H2] Hw Ho. unfold crash_file, f_synced, fsize, flen in *. cbn [fbytes].
+  assert (Hl : length (firstn c (fbytes f)) = c) by (rewrite firstn_length; lia).
+  split.
+  - rewrite app_length, Hl. lia.
+  - rewrite firstn_app. rewrite Hl. replace (N.to_nat o - c)%nat with 0%nat by lia.
+    cbn [firstn]. rewrite app_nil_r. rewrite firstn_firstn. f_equal. lia.
+Qed.
